@@ -15,7 +15,7 @@ def run(tier, seed, replay=None):
     v = vlib.Verdict(pid, tier, seed)
     cfg = "Firewall_quick.cfg" if tier == "quick" else "Firewall_full.cfg"
     r = vlib.tlc_must_pass("Firewall", cfg, wd, timeout=900, workers=1)
-    wit = vlib.witnesses("Firewall", "Firewall_quick.cfg", ["W_NoNotice", "W_NoBlockedNotice", "W_NoSecondRule"], wd, workers=1)
+    wit = vlib.witnesses("Firewall", "Firewall_quick.cfg", ["W_NoNotice", "W_NoBlockedNotice", "W_NoSecondRule", "W_NoExpired"], wd, workers=1)
     vectors = os.path.join(r.dir, "vectors.ndjson")
     nvec = sum(1 for _ in open(vectors))
     if nvec != r.distinct:
